@@ -1,7 +1,9 @@
 SPECIFICATION Spec
 CONSTANTS
-  Subs = {"a", "b"}
-  Timeouts = {3, 5}
+  Subs1 = {"a"}
+  Timeouts1 = {3, 5}
+  Subs2 = {"b"}
+  Timeouts2 = {5}
   Tick = 2
   UnitMs = 250
   Exact = FALSE
